@@ -94,15 +94,19 @@ BuildEnd ==
   /\ UNCHANGED <<np, acc, tgt, own, aid0, nfev, nevals, pend, seenNone, faultSeen, patience, stats, statFault>>
 
 (* ---------------- caller driven updates and queries ---------------- *)
+\* while an update is in progress (phases "cseteval", "eval", "reseteval") the cache still is the old one
 CSet(aid, ok) ==
   /\ phase \in {"built", "done"}
   /\ tgt' = IF ok THEN aid ELSE tgt
-  /\ own' = -1
+  /\ own' = IF ok THEN own ELSE -1
   /\ phase' = IF ok THEN "cseteval" ELSE "csetfailed"
   /\ UNCHANGED <<np, acc, aid0, nfev, nevals, pend, seenNone, faultSeen, patience, stats, statFault>>
-CSetEval(ok) ==
+\* keep = TRUE is the NAMED DEVIATION "cache kept although the evaluation failed" (stale values of
+\* the previous parameters stay exposed); property C09 forbids it
+CSetEval(ok, keep) ==
   /\ phase \in {"cseteval", "csetfailed"}
-  /\ own' = IF phase = "cseteval" /\ ok THEN tgt ELSE -1
+  /\ keep => (~ok /\ phase = "cseteval")
+  /\ own' = IF phase = "cseteval" /\ ok THEN tgt ELSE IF keep THEN own ELSE -1
   /\ phase' = "csetevaldone"
   /\ UNCHANGED <<np, acc, tgt, aid0, nfev, nevals, pend, seenNone, faultSeen, patience, stats, statFault>>
 StaleCSetEval(ok) ==
@@ -130,7 +134,9 @@ CJacEnd ==
 CJacPresent == own # -1 /\ phase = "cjac" /\ pend = {}
 
 (* ---------------- the optimizer ---------------- *)
-FitStart(pat, withStats) ==
+\* startJac: does the optimizer obtain residuals at the start (and goes on to the Jacobian)?
+\* A correct problem delivers them iff its cache is present (guard in Trace_VPFit / MC_VPFit).
+FitStart(pat, withStats, startJac) ==
   /\ phase \in {"built", "done"}
   /\ patience' = pat
   /\ stats' = withStats
@@ -140,7 +146,7 @@ FitStart(pat, withStats) ==
   /\ nfev' = 1
   /\ nevals' = 0
   /\ faultSeen' = FALSE
-  /\ IF own # -1
+  /\ IF startJac
      THEN phase' = "jac" /\ pend' = AllIdx /\ seenNone' = FALSE
      ELSE phase' = "mustend" /\ pend' = {} /\ seenNone' = TRUE
   /\ UNCHANGED <<np, tgt, own>>
@@ -160,7 +166,7 @@ TrialSet(aid, ok) ==
   /\ phase = "trial"
   /\ nfev' = nfev + 1
   /\ IF ok
-     THEN tgt' = aid /\ own' = -1 /\ phase' = "eval" /\ UNCHANGED <<seenNone, faultSeen>>
+     THEN tgt' = aid /\ own' = own /\ phase' = "eval" /\ UNCHANGED <<seenNone, faultSeen>>
      ELSE tgt' = tgt /\ own' = -1 /\ phase' = "setfailed" /\ seenNone' = TRUE /\ faultSeen' = TRUE
   /\ UNCHANGED <<np, acc, aid0, nevals, pend, patience, stats, statFault>>
 
@@ -175,13 +181,17 @@ EvalAfterFailedSet(ok) ==
 \* trace specification leaves to TLC:  "accept" (new Jacobian follows), "acceptstop" (accepted,
 \* a termination test fired), "reject" (another trial step, or reset + termination, follows)
 Decisions == {"accept", "acceptstop", "reject"}
-TrialEval(ok, dec) ==
+\* keep = TRUE: NAMED DEVIATION "cache kept although the evaluation failed": the optimizer is handed
+\* the residuals of the PREVIOUS parameters and carries on
+TrialEval(ok, dec, keep) ==
   /\ phase = "eval"
   /\ dec \in Decisions
+  /\ keep => ~ok
   /\ nevals' = nevals + 1
-  /\ IF ok
-     THEN /\ own' = tgt
-          /\ UNCHANGED <<seenNone, faultSeen>>
+  /\ IF ok \/ keep
+     THEN /\ own' = IF ok THEN tgt ELSE own
+          /\ faultSeen' = (faultSeen \/ ~ok)
+          /\ UNCHANGED seenNone
           /\ acc' = IF dec = "reject" THEN acc ELSE tgt
           /\ phase' = IF dec = "accept" THEN "jac" ELSE "trial"
           /\ pend' = IF dec = "accept" THEN AllIdx ELSE {}
@@ -211,14 +221,15 @@ StaleTrialEval(ok, dec) ==
 ResetSet(aid, ok) ==
   /\ phase = "trial"
   /\ aid = acc          \* (the rejected trial parameters may coincide with the accepted ones)
-  /\ IF ok THEN tgt' = acc /\ own' = -1 /\ phase' = "reseteval" /\ faultSeen' = faultSeen
+  /\ IF ok THEN tgt' = acc /\ own' = own /\ phase' = "reseteval" /\ faultSeen' = faultSeen
      ELSE tgt' = tgt /\ own' = -1 /\ phase' = "resetsetfailed" /\ faultSeen' = TRUE
   /\ UNCHANGED <<np, acc, aid0, nfev, nevals, pend, seenNone, patience, stats, statFault>>
-ResetEval(ok) ==
+ResetEval(ok, keep) ==
   /\ phase \in {"reseteval", "resetsetfailed"}
+  /\ keep => (~ok /\ phase = "reseteval")
   /\ phase' = "end"
   /\ nevals' = nevals + 1
-  /\ own' = IF phase = "reseteval" /\ ok THEN tgt ELSE -1
+  /\ own' = IF phase = "reseteval" /\ ok THEN tgt ELSE IF keep THEN own ELSE -1
   /\ faultSeen' = (faultSeen \/ ~ok)
   /\ UNCHANGED <<np, acc, tgt, aid0, nfev, pend, seenNone, patience, stats, statFault>>
 
@@ -253,7 +264,8 @@ PostEval(ok) ==
 
 (* ---------------- properties of the design ---------------- *)
 \* C02/C09/C10: whatever is cached belongs to the parameters the model holds
-Coherent == own # -1 => own = tgt
+Pending == phase \in {"cseteval", "eval", "reseteval"}
+Coherent == (own # -1 /\ ~Pending) => own = tgt
 \* C04: the evaluation budget
 BudgetRespected == patience > 0 => nfev <= patience * (np + 1) + 1
 TypeOK == /\ own \in -1..1000 /\ tgt \in -1..1000 /\ acc \in -1..1000
